@@ -2,6 +2,7 @@ pub mod c0607;
 pub mod c09;
 pub mod c12;
 pub mod c18;
+pub mod c19;
 pub mod c20;
 pub mod gds;
 pub mod lef;
@@ -30,6 +31,7 @@ pub fn gen(prop: &str, thorough: bool, seed: u64, out: &mut Vec<String>) {
         "C16" => c16::gen(thorough, &mut rng, out),
         "C17" => c17::gen(thorough, &mut rng, out),
         "C18" => c18::gen(thorough, &mut rng, out),
+        "C19" => c19::gen(thorough, &mut rng, out),
         "C20" => c20::gen(thorough, &mut rng, out),
         _ => panic!("unknown property {}", prop),
     }
@@ -53,6 +55,7 @@ pub fn oracle(prop: &str, line: &str) -> String {
         "C16" => c16::oracle(line),
         "C17" => c17::oracle(line),
         "C18" => c18::oracle(line),
+        "C19" => c19::oracle(line),
         "C20" => c20::oracle(line),
         _ => "na".to_string(),
     });
@@ -71,6 +74,7 @@ pub fn tag(prop: &str, line: &str) -> String {
         "C16" => c16::tag(line),
         "C17" => c17::tag(line),
         "C18" => c18::tag(line),
+        "C19" => c19::tag(line),
         "C20" => c20::tag(line),
         _ => "-".to_string(),
     }
